@@ -156,6 +156,39 @@ pub fn generate_stock(rng: &mut Rng, tier: Tier) -> Scn {
     s
 }
 
+/// Beyond small cases: single pieces larger than 64 KiB, and more writer
+/// threads than any small table or counter threshold (17-24).
+pub fn generate_scale(rng: &mut Rng, tier: Tier) -> Scn {
+    let mut s = generate(rng, tier);
+    for ph in s.phases.iter_mut() {
+        ph.handover = false;
+    }
+    if rng.chance(1, 2) {
+        const BIG: [u32; 8] = [8193, 65500, 65537, 70000, 100000, 131073, 200000, 262145];
+        s.encoder = match rng.below(3) {
+            0 => EncKind::Pattern,
+            1 => EncKind::Json,
+            _ => EncKind::Chunk { seed: rng.next_u64() },
+        };
+        for ph in s.phases.iter_mut() {
+            for t in ph.threads.iter_mut() {
+                for r in t.iter_mut() {
+                    if rng.chance(1, 2) {
+                        r.len = *rng.pick(&BIG) + rng.below(2) as u32;
+                    }
+                }
+            }
+        }
+    } else {
+        let n = rng.range(17, 24) as usize;
+        s.phases.truncate(1);
+        let ph = &mut s.phases[0];
+        ph.observations = 0;
+        ph.threads = (0..n).map(|_| (0..rng.range(1, 2) as u16).map(|k| Rec { n: k, len: if rng.chance(1, 6) { 1500 } else { rng.range(1, 60) as u32 }, sib: false, full: false, quota: None, hold: false }).collect()).collect();
+    }
+    s
+}
+
 /// One writer at a time, writes that fail half-way (a file size limit that
 /// falls inside a record), encoder failures in between: fault sequences at
 /// the write(2) and `Encode` seams, judged by a byte-exact model.
